@@ -417,7 +417,9 @@ func c18configs(quick bool) []gatherCfg {
 			ifaceSets = append(ifaceSets, s)
 		}
 	}
-	netTypes := [][]string{nil, {"udp4"}, {"udp6"}, {"udp4", "udp6"}, {"tcp4"}, {"udp4", "tcp4"}, {"udp4", "udp6", "tcp4", "tcp6"}}
+	netTypes := [][]string{nil, {"udp4"}, {"udp6"}, {"udp4", "udp6"}, {"tcp4"}, {"udp4", "tcp4"}, {"udp4", "udp6", "tcp4", "tcp6"},
+		// lists whose families and transports do not form a full product (S34)
+		{"udp4", "tcp6"}, {"udp6", "tcp4"}}
 	candTypes := [][]string{{"host"}, {"srflx"}, {"host", "srflx"}}
 	type pr struct {
 		min, max int
